@@ -83,18 +83,23 @@ def run(ctx):
         p = os.path.join(ctx.scratch, 'doc.txt')
         with open(p, 'w', encoding='utf-8', newline='') as f:
             f.write(text)
+        err = None
         try:
-            a = [_debcon.d2l(x) for x in debcon.get_paragraphs_data_from_file(p)]
-            b = _d822.groups_t(deb822.get_paragraphs_as_field_groups_from_file(p))
+            try:
+                a = [_debcon.d2l(x) for x in debcon.get_paragraphs_data_from_file(p)]
+                b = _d822.groups_t(deb822.get_paragraphs_as_field_groups_from_file(p))
+            except Exception as e:  # noqa
+                a = b = None
+                err = 'reading from a UTF-8 file raises %s' % type(e).__name__
             a0 = [_debcon.d2l(x) for x in debcon.get_paragraphs_data(text)]
             b0 = _d822.groups_t(deb822.get_paragraphs_as_field_groups(text))
         finally:
             os.unlink(p)
         fst['cases'] += 1
         ctx.evaluations += 1
-        if a != a0 or b != b0:
+        if err or a != a0 or b != b0:
             fst['prop_failures'] += 1
-            fails.append(((text, ''), 'reading from a UTF-8 file differs from parsing the text'))
+            fails.append(((text, ''), err or 'reading from a UTF-8 file differs from parsing the text'))
     ctx.notes.append('file route (open, UTF-8 decoding, newline translation) is exercised by execution only, not modelled')
 
     # correspondence: email fragment, splitter, both parsers
